@@ -57,6 +57,14 @@ def generate(prop, seed, tier):
         spec = G.ring_chord_spec(g, 'small')
     if not vit and g.random() < 0.3:
         G.add_onehot_terminals(spec, g)
+    g2 = Stream(seed, 'gen-dead')
+    if not vit and g2.random() < 0.08:
+        # a ring of scalar (arity-0) nonterminals, some without a base rule, one of which gets a dead rule (two one-hot
+        # indicators on one node that fail to unify): the first fixed-point iterate of that member is einsum's 0-dim
+        # zero result, which the next iterate is copied into -- whatever that zero result aliases (a memoised semiring
+        # constant, a caller's tensor) is overwritten, visible to later queries with the same caller-owned semiring object
+        spec = G.ring_chord_spec(g2, 'small', vec=False, min_sz=2)
+        G.add_onehot_terminals(spec, g2)
     ops = []
     for i in range(g.randrange(4, 15)):
         ops.append({'uid': i, 'op': g.choice(OPS + (['viterbi'] * 3 if vit else [])), 'a': [g.randrange(1 << 16) for _ in range(6)]})
@@ -153,10 +161,44 @@ class Machine:
             S = semiring_obj(sem, torch.float64)
             if sem not in pool:
                 pool[sem] = S
+                # the first thing the caller does with the object is a small query of its own (a vector-valued, linearly
+                # recursive probe grammar): the same query is asked again at the end of the history and must answer the same
+                self.__dict__.setdefault('probe0', {})[sem] = self.probe(sem, S)
+                self.sem_before = self.sem_snap()
             else:
                 return S
         self.c.inc('probe.semiring-object-reused')
         return pool[sem]
+
+    PROBE = {'domains': {'A': {'kind': 'range', 'size': 3}},
+             'terms': {'pa': {'type': ['A'], 'weights': [0.3, 0.0, 0.2]}, 'pb': {'type': [], 'weights': 0.5},
+                       'pc': {'type': ['A', 'A'], 'weights': [[0.1, 0.0, 0.0], [0.2, 0.1, 0.0], [0.0, 0.0, 0.3]]}},
+             'nts': {'PS': {'type': []}, 'PX': {'type': ['A']}}, 'start': 'PS',
+             'rules': [{'lhs': 'PS', 'nodes': [{'label': 'A', 'id': None}], 'ext': [], 'edges': [{'label': 'PX', 'att': [0], 'id': None}]},
+                       {'lhs': 'PX', 'nodes': [{'label': 'A', 'id': None}], 'ext': [0], 'edges': [{'label': 'pa', 'att': [0], 'id': None}]},
+                       {'lhs': 'PX', 'nodes': [{'label': 'A', 'id': None}], 'ext': [0],
+                        'edges': [{'label': 'PX', 'att': [0], 'id': None}, {'label': 'pb', 'att': [], 'id': None}]},
+                       {'lhs': 'PX', 'nodes': [{'label': 'A', 'id': None}, {'label': 'A', 'id': None}], 'ext': [0],
+                        'edges': [{'label': 'pc', 'att': [0, 1], 'id': None}, {'label': 'PX', 'att': [1], 'id': None}]}]}
+
+    def probe(self, sem, S):
+        from .present import lift
+        pg = self.__dict__.setdefault('probe_fgg', {})
+        if sem not in pg:
+            pg[sem] = build.build(copy.deepcopy(self.PROBE), None, interp=True, weights_transform=lift(sem), dtype=torch.float64).fgg
+        out = []
+        for method in ('newton', 'linear', 'fixed-point'):
+            r = self.F.sum_products(pg[sem], semiring=S, method=method, tol=1e-12, kmax=1000)
+            out.append(tuple((el.name, dense_bytes(t)) for el, t in r.items() if el.is_nonterminal))
+        return tuple(out)
+
+    def probe_again(self):
+        for sem, S in self.__dict__.get('sems', {}).items():
+            now = self.probe(sem, S)
+            self.c.inc('probe.semiring-probe-repeated')
+            if now != self.probe0[sem]:
+                V('not-reproducible', ['semiring-object', sem], f'a fixed probe query (vector-valued linear recursion) asked with the caller\'s {sem} semiring object '
+                  f'before the history and again after it gives different results, although the probe grammar and the arguments are the same objects')
 
     def sem_snap(self):
         out = {}
@@ -662,6 +704,7 @@ class Machine:
             self.nops += 1
             self.history.append(op)
             self.log.add(op['uid'], op['op'], r)
+        self.probe_again()
 
 
 def dense_bytes(t):
